@@ -51,6 +51,12 @@ def alter(c, alt):
         kw[a], kw[b] = getattr(c, b), getattr(c, a)
         if kw[a] == getattr(c, a):
             return None
+    elif kind == "varname":
+        vs = list(c.co_varnames)
+        if alt[1] >= len(vs) or vs[alt[1]] == alt[2]:
+            return None
+        vs[alt[1]] = alt[2]
+        kw["co_varnames"] = tuple(vs)
     elif kind == "combo":
         kw["co_flags"] = c.co_flags ^ alt[1]
         if hasattr(c, alt[2]):
@@ -58,7 +64,7 @@ def alter(c, alt):
     else:
         raise ValueError(alt)
     for k, v in kw.items():
-        if k != "co_flags" and v < 0:
+        if k != "co_flags" and isinstance(v, int) and v < 0:
             return None
     try:
         return replace_code(c, **kw)
@@ -80,6 +86,8 @@ def alt_class(alt, known_bits):
         return "count:" + alt[1]
     if kind == "swap":
         return "swap:%s/%s" % (alt[1], alt[2])
+    if kind == "varname":
+        return "varname:empty" if alt[2] == "" else "varname:duplicate"
     return "combo"
 
 
@@ -127,6 +135,14 @@ def alterations_for(c, rng, known_bits, n_masks, n_combo):
             alts.append(("count", f, d))
     for _ in range(n_combo):
         alts.append(("combo", 1 << rng.randint(0, 30), rng.choice(fields), rng.choice([-1, 1, 2])))
+    # parameter NAMES altered by hand: a duplicate, an empty name (CPython accepts both in a code object)
+    np_ = c.co_argcount + c.co_kwonlyargcount + bool(c.co_flags & 4) + bool(c.co_flags & 8)
+    if np_ >= 1:
+        alts.append(("varname", rng.randint(0, np_ - 1), ""))
+        alts.append(("varname", np_ - 1, ""))
+    if np_ >= 2:
+        i = rng.randint(1, np_ - 1)
+        alts.append(("varname", i, c.co_varnames[rng.randint(0, i - 1)]))
     return alts
 
 
